@@ -22,11 +22,12 @@ def coef_for_exp(rng, kind):
     elif kind == "tiny": z = (u(1) * 1e-12, u(1) * 1e-12)
     elif kind == "zero": z = (0.0, 0.0)
     elif kind == "big": z = (u(18), u(18))
+    elif kind == "huge": z = (rng.choice([-1, 1]) * rng.uniform(20.5, 32), u(3))        # |Re| beyond 20: cosh - sinh is far below one ulp of either
     elif kind == "pi": z = (0.0, rng.choice([math.pi, -math.pi, math.pi / 2, 2 * math.pi]))
     else: raise ValueError(kind)
     return [float2bits(z[0]), float2bits(z[1])]
 
-KINDS_Q = ["generic", "generic", "real", "imag", "tiny", "zero", "big", "pi"]
+KINDS_Q = ["generic", "generic", "real", "imag", "tiny", "zero", "big", "pi", "huge"]
 
 def gen_cases(ctx):
     rng = ctx.rng
